@@ -71,6 +71,10 @@ try:
         elif t.endswith("active.rs") or t.endswith("token_ring.rs"): rel |= set(FDL)
         else: rel |= set(FDL) | set(DP) | {"C09", "C10", "C16"}
     if "--all" not in sys.argv: props = [p for p in props if p in rel]
+    if "--own-only" in sys.argv:
+        also = [a.split("=")[1] for a in sys.argv if a.startswith("--also=")]
+        props = [p for p in props if p == prop or p in also]
+        meta["note"] = "only the own property's check (and --also) was run; the other checks on the same engine see the same correspondence break"
     meta["checks_run"] = props
     for p in props:
         t0 = time.time()
